@@ -79,6 +79,24 @@ class Env:
             self._ref_real[key] = out
         return self._ref_real[key]
 
+    def json_tainted(self, q):
+        """does evaluating q involve a (sub)query whose value is a dictionary, or whose state variables are, not equal
+        to their own JSON image (tuples, non-text keys)?  Serialising caches file dictionaries and metadata as JSON, so
+        everything computed from such a cached entry may differ: one mechanism, the listed finding of C04 / C05."""
+        keys = {q}
+        keys.update(prefixes_of(q))
+        for l in link_queries_of(q):
+            keys.add(l)
+            keys.update(prefixes_of(l))
+        for k in sorted(keys):
+            try:
+                ref = self.reference(k)
+            except Exception:
+                continue
+            if ref and ref.get("ok") and not (json_stable(ref.get("value")) and json_stable(ref.get("vars"))):
+                return True
+        return False
+
     def interp(self, q):
         """reference interpreter outcome for query text (Ok / Fail / None when unsupported or over budget)"""
         if q not in self._ref_interp:
@@ -114,8 +132,48 @@ def outcome_of(st, exc):
             "filename": st.metadata.get("filename"), "extension": st.metadata.get("extension") or None}
 
 
-def compare_outcomes(ref, got):
-    """list of (field, detail); failure is compared as failure only (how it fails is C06's subject)"""
+JSON_IMAGE = "state_variables_json_image"
+VALUE_JSON_IMAGE = "value_json_image"
+SERVED_JSON_IMAGE = "served_data_is_json_image_of_fresh_evaluation"
+JSON_IMAGE_FIELDS = (JSON_IMAGE, VALUE_JSON_IMAGE, SERVED_JSON_IMAGE)
+
+
+def json_stable(v):
+    import json
+
+    if not isinstance(v, dict):
+        return True
+    try:
+        return R.equal(json.loads(json.dumps(v)), v)
+    except Exception:
+        return True    # cannot be filed as JSON at all: the cache refuses it, nothing is served
+
+
+def json_image_explains(ref_value, got_value):
+    """True when got is exactly what JSON makes of ref (tuples -> lists, non-text keys -> text): dictionaries are filed
+    by serialising caches in their default format, JSON.  One mechanism, listed as a finding of C04 and C05."""
+    import json
+
+    if not isinstance(ref_value, dict):
+        return False
+    try:
+        return R.equal(json.loads(json.dumps(ref_value)), got_value)
+    except Exception:
+        return False
+
+
+def compare_outcomes(ref, got, env=None, q=None):
+    """list of (field, detail); failure is compared as failure only (how it fails is C06's subject).
+    With env and q given, value / state-variable differences of a query that involves a JSON-unstable dictionary
+    (Env.json_tainted) are reported under the JSON-image field names."""
+    d = _compare_outcomes(ref, got)
+    if env is not None and q is not None and any(f in ("value", "state_variables") for f, _ in d):
+        if env.json_tainted(q):
+            d = [({"value": VALUE_JSON_IMAGE, "state_variables": JSON_IMAGE}.get(f, f), x) for f, x in d]
+    return d
+
+
+def _compare_outcomes(ref, got):
     d = []
     if ref is None or got is None:
         return d
@@ -127,12 +185,24 @@ def compare_outcomes(ref, got):
     if not ref["ok"]:
         return d
     if not R.equal(ref["value"], got["value"]):
-        d.append(("value", "without cache %s (%s), with cache %s (%s)" % (
+        d.append((VALUE_JSON_IMAGE if json_image_explains(ref["value"], got["value"]) else "value",
+                  "without cache %s (%s), with cache %s (%s)" % (
             R.short(ref["value"]), type(ref["value"]).__name__, R.short(got["value"]), type(got["value"]).__name__)))
     if ref["volatile"] != got["volatile"]:
         d.append(("volatility", "without cache %r, with cache %r" % (ref["volatile"], got["volatile"])))
     if not R.dict_equal_unordered(ref["vars"], got["vars"]):
-        d.append(("state_variables", "without cache %r, with cache %r" % (ref["vars"], got["vars"])))
+        field = "state_variables"
+        try:
+            # state variables travel in the JSON metadata of serialising caches: a value JSON has no native form for
+            # (a tuple) comes back as its JSON image (a list).  A mechanism of its own (C04's listed finding); the
+            # properties that do not speak about state variables ignore it (JSON_IMAGE).
+            import json
+
+            if R.dict_equal_unordered(json.loads(json.dumps(ref["vars"])), got["vars"]):
+                field = JSON_IMAGE
+        except Exception:
+            pass
+        d.append((field, "without cache %r, with cache %r" % (ref["vars"], got["vars"])))
     if ref["filename"] != got["filename"]:
         d.append(("filename", "without cache %r, with cache %r" % (ref["filename"], got["filename"])))
     if ref["extension"] != got["extension"]:
@@ -287,7 +357,7 @@ def inspect_cache(env, cache, keys, viol, kindlabel):
             viol("volatile_key_served", "cache serves %s for volatile %r" % (R.short(g.data), k), k)
             continue
         if not R.equal(g.data, fresh["value"]):
-            viol("served_data_differs_from_fresh_evaluation", "cache serves %s for %r, fresh evaluation gives %s" % (
+            viol(SERVED_JSON_IMAGE if (json_image_explains(fresh["value"], g.data) or env.json_tainted(k)) else "served_data_differs_from_fresh_evaluation", "cache serves %s for %r, fresh evaluation gives %s" % (
                 R.short(g.data), k, R.short(fresh["value"])), k)
 
 
